@@ -140,3 +140,30 @@ def partition_lemmas(u, prefix, what):
         ctx.assume(T(k, B) == k)
         return [('base', T(0, B) == 0), (f'step: {what}', T(k + 1, B) == k + 1)]
     u.lemma(f'{prefix}.L-partition.total(induction on samples)', step_k)
+
+
+def weighted_partition_lemmas(u, prefix, what):
+    """L-exch: sum over bins of w(b) * Count_b = sum over samples of w(bin(sample)); same two nested inductions as L-partition, with
+         T(k, m+1) = T(k, m) + w(m) * C(m, k)   and   W(k+1) = W(k) + w(bin(k))."""
+    I, R = z3.IntSort(), z3.RealSort()
+
+    def step_m(ctx):
+        C, T, binf, w = z3.Function('C', I, I, I), z3.Function('T', I, I, R), z3.Function('bin', I, I), z3.Function('w', I, R)
+        k, m = z3.Ints('k m')
+        ctx.assume(z3.And(k >= 0, m >= 0, binf(k) >= 0))
+        ctx.assume(z3.And(T(k, 0) == 0, T(k + 1, 0) == 0, T(k, m + 1) == T(k, m) + w(m) * z3.ToReal(C(m, k)), T(k + 1, m + 1) == T(k + 1, m) + w(m) * z3.ToReal(C(m, k + 1)),
+                          C(m, k + 1) == C(m, k) + z3.If(binf(k) == m, 1, 0)))
+        add = lambda mm: z3.If(binf(k) < mm, w(binf(k)), z3.RealVal(0))  # noqa: E731
+        ctx.assume(T(k + 1, m) == T(k, m) + add(m))
+        return [('base (m = 0)', T(k + 1, 0) == T(k, 0) + add(0)), ('step', T(k + 1, m + 1) == T(k, m + 1) + add(m + 1))]
+    u.lemma(f'{prefix}.L-exch.one-more-sample(induction on bins)', step_m)
+
+    def step_k(ctx):
+        T, W, binf, w = z3.Function('T', I, I, R), z3.Function('W', I, R), z3.Function('bin', I, I), z3.Function('w', I, R)
+        k, B = z3.Ints('k B')
+        ctx.assume(z3.And(k >= 0, B >= 1, binf(k) >= 0, binf(k) < B))
+        ctx.assume(T(k + 1, B) == T(k, B) + z3.If(binf(k) < B, w(binf(k)), z3.RealVal(0)))  # previous lemma at m = B
+        ctx.assume(z3.And(T(0, B) == 0, W(0) == 0, W(k + 1) == W(k) + w(binf(k))))
+        ctx.assume(T(k, B) == W(k))
+        return [('base', T(0, B) == W(0)), (f'step: {what}', T(k + 1, B) == W(k + 1))]
+    u.lemma(f'{prefix}.L-exch.total(induction on samples)', step_k)
